@@ -26,13 +26,13 @@ Proof. vm_compute. reflexivity. Qed.
 Lemma code_order_std : code_order = [BBRvesting; BBDistr].
 Proof. vm_compute. reflexivity. Qed.
 
-Lemma code_init_sets : set_before_stop G.init_genesis_steps = true.
+Lemma code_init_sets : sets_params_always G.init_genesis_steps = true.
 Proof. vm_compute. reflexivity. Qed.
 
-Lemma code_init_stops : stop_before_bank G.init_genesis_steps = true.
+Lemma code_init_stops : only_params_without_from G.init_genesis_steps = true.
 Proof. vm_compute. reflexivity. Qed.
 
-Lemma code_init_known : forallb istep_known G.init_genesis_steps = true.
+Lemma code_init_known : forallb (istep_known G.module_name) G.init_genesis_steps = true.
 Proof. vm_compute. reflexivity. Qed.
 
 Lemma code_init_one_send : nsend G.init_genesis_steps = 1%nat.
@@ -44,8 +44,16 @@ Proof. vm_compute. reflexivity. Qed.
 Lemma code_validate_shape : G.params_validate_shape = PVAlways.
 Proof. vm_compute. reflexivity. Qed.
 
-Lemma code_gvsteps : G.validate_genesis_steps = [(false, GVParams); (true, GVBech32); (true, GVInitCoins)].
+Lemma code_gvsteps_ok : gvsteps_ok G.validate_genesis_steps = true.
 Proof. vm_compute. reflexivity. Qed.
+
+Lemma code_gvsteps_parts :
+  forallb (fun ts => fst ts || is_gv_params (snd ts)) G.validate_genesis_steps = true /\
+  existsb (fun ts => negb (fst ts) && is_gv_params (snd ts)) G.validate_genesis_steps = true.
+Proof.
+  pose proof code_gvsteps_ok as H. unfold gvsteps_ok in H.
+  repeat (apply andb_true_iff in H as [H ?]). split; assumption.
+Qed.
 
 (** * validatePerBlockReward of the source = [validate_rewards] *)
 Lemma code_validate_total l :
@@ -142,11 +150,11 @@ Proof.
   { intros w0 H0. unfold code_export_genesis, export_genesis. rewrite code_export_shape.
     unfold code_get_params in H0. rewrite H0. unfold plain_export. cbn [enable rewards]. rewrite Hr. reflexivity. }
   split; [exists r; repeat split; assumption|]. split; [apply Hexp; exact Hgp|]. split.
-  - unfold code_validate_genesis. rewrite code_gvsteps, code_validate_shape.
-    cbn [validate_genesis plain_export g_from andb gvstep_rejects params_validate g_enable g_rewards].
-    fold code_validate. rewrite Hr, code_validate_lift, Hv. reflexivity.
+  - unfold code_validate_genesis. apply validate_genesis_no_from_ok; [reflexivity|apply code_gvsteps_parts|].
+    unfold params_validate. rewrite code_validate_shape. cbn [plain_export g_enable g_rewards].
+    fold (code_validate (g_rewards g)). rewrite Hr, code_validate_lift, Hv. reflexivity.
   - destruct (init_steps_no_from_total code_pairs code_lgs code_cgs code_pairs_std code_guards_std G.module_name
-                G.init_genesis_steps (plain_export g) r w' eq_refl code_init_stops code_init_known Hr Hv) as (w2 & H2).
+                G.init_genesis_steps (plain_export g) r w' eq_refl code_init_stops Hr Hv) as (w2 & H2).
     exists w2. split; [exact H2|].
     destruct (init_steps_no_from code_pairs code_lgs code_cgs G.module_name G.init_genesis_steps (plain_export g) None w' w2
                 eq_refl code_init_stops H2) as (Ha & Hs & _).
@@ -177,13 +185,18 @@ Qed.
 Lemma code_valid_genesis_total_no_from g w :
   g_from g = FromEmpty -> code_validate_genesis g = Ok true -> exists w', code_init_genesis g w = Ok w'.
 Proof.
-  intros Hf Hv. unfold code_validate_genesis in Hv. rewrite code_gvsteps, code_validate_shape in Hv.
-  cbn [validate_genesis andb gvstep_rejects params_validate] in Hv. rewrite Hf in Hv. fold code_validate in Hv.
-  rewrite code_validate_total in Hv.
-  destruct (strip_coins (g_rewards g)) as [r|] eqn:Es; cbn [negb] in Hv; [|discriminate].
-  destruct (validate_rewards r) eqn:Evr; cbn [negb] in Hv; [|discriminate].
-  apply (init_steps_no_from_total code_pairs code_lgs code_cgs code_pairs_std code_guards_std G.module_name
-           G.init_genesis_steps g r w Hf code_init_stops code_init_known (strip_lift _ _ Es) Evr).
+  intros Hf Hv. destruct code_gvsteps_parts as (Hall & Hex).
+  assert (Hpv : params_validate code_lgs code_cgs G.params_validate_shape (g_enable g) (g_rewards g) =
+                Ok (match strip_coins (g_rewards g) with Some r => validate_rewards r | None => false end)).
+  { unfold params_validate. rewrite code_validate_shape. apply code_validate_total. }
+  destruct (strip_coins (g_rewards g)) as [r|] eqn:Es.
+  - destruct (validate_rewards r) eqn:Evr.
+    + apply (init_steps_no_from_total code_pairs code_lgs code_cgs code_pairs_std code_guards_std G.module_name
+               G.init_genesis_steps g r w Hf code_init_stops (strip_lift _ _ Es) Evr).
+    + unfold code_validate_genesis in Hv.
+      rewrite (validate_genesis_no_from_reject _ _ _ g _ Hf Hall Hex Hpv) in Hv. discriminate.
+  - unfold code_validate_genesis in Hv.
+    rewrite (validate_genesis_no_from_reject _ _ _ g _ Hf Hall Hex Hpv) in Hv. discriminate.
 Qed.
 
 (** * Refinement: the single-module histories of Model/Rvesting.v are world histories *)
